@@ -1,3 +1,5 @@
 pub assume_specification<T, F: FnOnce(T) -> bool> [Option::<T>::is_some_and] (o: Option<T>, f: F) -> (r: bool)
     requires o matches Some(x) ==> f.requires((x,)),
     ensures match o { Some(x) => f.ensures((x,), r), None => !r };
+pub assume_specification<T, E> [Result::<T, E>::unwrap_or] (r: Result<T, E>, d: T) -> (o: T)
+    ensures o == (match r { Ok(v) => v, Err(_) => d });
